@@ -1,4 +1,304 @@
-import SoxrModel.Conv.Model
-namespace Soxr.Conv
-theorem placeholder_c11 : Gen.unroll = 16 := by decide
-end Soxr.Conv
+import SoxrModel.Conv.LemmasProps
+import SoxrModel.Conv.LemmasLsr
+
+/-!
+# C11 — format conversion: exact scaling, round to nearest, saturation, clip count, pass-through, dither bound
+
+Model: `SoxrModel/Conv/Model.lean` — `rint-clip.h` (the twelve kernels `lsx_rint{16,32}_clip[_2][_dither][_f]` as one
+parametrised definition: `fistp` with the sticky x87 invalid flag, the 16-way unrolled loop `DO_16`, the re-run of a
+block through `RINT_CLIP`, the tail, the strided variant), `rint.h`, the casts of `data-io.c`, the scaling of the
+unit-gain path of `soxr.c`, the dither LCG on `BitVec 64`.  All values are exact dyadics: a finite IEEE value is an
+integer number of **units** `2^-1074` (`Val.fin x` is `x · 2^-1074`; `unit` is `1.0`), so the theorems quantify over
+every finite `float`/`double`, ±Inf and NaN (`Val`), every length, every seed, every channel count.
+
+`convSample mx` is the per-sample specification: round half to even, saturate at `[-mx-1, mx]`, report saturation.
+
+Clauses and theorems
+* saturates, never wraps            `rint_clip_range`, `stored_pattern_is_value`, `saturation_value`, `nonfinite_saturate`
+* rounds to nearest (ties to even)  `rint_nearest`
+* saturation thresholds             `clip_iff`
+* the real kernels = specification  `fast_path_eq_reference`, `strided_eq_reference`, `interleave_int_spec`
+  (hypothesis: invalid flag clear on entry; `stale_flag_breaks_it` shows the hypothesis is needed)
+* clip counter                      `clip_count_exact`, `clip_count_exact_dither`
+* full scale = ±1.0, exact scaling  `scale_table_pow2`, `scale_pow2_exact`, `full_scale_i16`, `full_scale_i32`,
+                                    `minus_full_scale_is_minus_one`
+* exact where representable         `int16_float32_roundtrip`, `int32_float64_roundtrip`, `int16_to_int32_exact`,
+                                    `float32_widen_exact`, `float_to_int16_is_reference`
+* pass-through at equal rates       `passthrough_exact` (all same-type pairs the engine precision can hold)
+* dither                            `dither_amount_bound`, `dither_bound`, `dithered_kernel_spec`, `dither_seed_advance`,
+                                    `lcg_is_mod_2_64`
+* SOXR_NO_DITHER                    `no_dither_deterministic`
+* constants read from /repo         `generated_constants`
+
+Not a theorem here (it is about the planner of `cr.c`, floating point): that equal rates and unit gain give a plan with
+zero stages, and that a full-scale factor alone gives the cubic stage at fraction 0, i.e. one multiplication by a power of
+two.  `passSample` models exactly that; the tie is the API half of the correspondence check (checks/c11.py), which runs
+`soxr_process` at equal rates for all 16 datatype pairs × 2 engines × 4 layouts against `passSample`.
+-/
+
+set_option exponentiation.threshold 4096
+namespace Soxr.Conv.C11
+open Soxr.Conv
+
+/-! ## saturation, never wrap -/
+
+/-- Every result of the reference conversion lies within the limits of the integer type — for every operand, NaN and
+    infinities included. -/
+theorem rint_clip_range (mx : Int) (h : 0 ≤ mx) (v : Val) :
+    -mx - 1 ≤ (convSample mx v).1 ∧ (convSample mx v).1 ≤ mx := convSample_range mx h v
+
+example : (convSample 32767 (.fin (40000 * unit))).1 = 32767 := by decide
+
+/-- The two's-complement pattern stored for a sample reads back as the value itself (no wrap-around), both widths. -/
+theorem stored_pattern_is_value (v : Val) :
+    toSigned 16 (ofSigned 16 (convSample (rintMax .i16) v).1) = (convSample (rintMax .i16) v).1 ∧
+    toSigned 32 (ofSigned 32 (convSample (rintMax .i32) v).1) = (convSample (rintMax .i32) v).1 := by
+  have h1 := convSample_range (rintMax .i16) (by decide) v
+  have h2 := convSample_range (rintMax .i32) (by decide) v
+  have e1 : rintMax .i16 = 32767 := rfl
+  have e2 : rintMax .i32 = 2147483647 := rfl
+  rw [e1] at h1 ⊢
+  rw [e2] at h2 ⊢
+  exact ⟨toSigned_ofSigned16 _ (by omega) (by omega), toSigned_ofSigned32 _ (by omega) (by omega)⟩
+
+/-- A saturated sample is the limit on its own side: `RINT_MAX` for a positive operand, `-RINT_MAX - 1` otherwise. -/
+theorem saturation_value (mx : Int) (h : 0 ≤ mx) (d : Val) (hc : (convSample mx d).2 = true) :
+    (convSample mx d).1 = if d.isPos then mx else -mx - 1 := convSample_sat_value mx h d hc
+
+example : (convSample 32767 (.fin (-40000 * unit))).2 = true := by decide
+
+/-- Infinities and NaN always count as saturated (NaN goes to the most negative value, as `d > 0` is false). -/
+theorem nonfinite_saturate (mx : Int) :
+    convSample mx (.inf false) = (mx, true) ∧ convSample mx (.inf true) = (-mx - 1, true) ∧
+    convSample mx .nan = (-mx - 1, true) := ⟨rfl, rfl, rfl⟩
+
+/-! ## round to nearest, ties to even -/
+
+/-- An unsaturated sample is the nearest integer: the error is at most half an LSB, no integer is nearer, and on an exact
+    tie the even neighbour is taken (`x` in units of `2^-1074`; `unit` is one LSB). -/
+theorem rint_nearest (mx x : Int) (hc : (convSample mx (.fin x)).2 = false) :
+    let r := (convSample mx (.fin x)).1
+    2 * (r * (unit : Int) - x).natAbs ≤ unit ∧
+    (∀ z : Int, (r * (unit : Int) - x).natAbs ≤ (z * (unit : Int) - x).natAbs) ∧
+    (2 * (r * (unit : Int) - x).natAbs = unit → r % 2 = 0) := by
+  obtain ⟨e, -, -⟩ := convSample_unclipped mx x hc
+  intro r
+  have er : r = rhe x unit := e
+  rw [er]
+  obtain ⟨n1, n2⟩ := rhe_near x unit unit_pos
+  refine ⟨by omega, rhe_nearest x unit unit_pos, ?_⟩
+  intro ht
+  exact rhe_tie_even x unit unit_pos (by omega)
+
+/-- 2.5 rounds to 2, 3.5 to 4, -0.5 to 0. -/
+example : (convSample 32767 (.fin (5 * 2 ^ 1073))).1 = 2 ∧ (convSample 32767 (.fin (7 * 2 ^ 1073))).1 = 4 ∧
+    (convSample 32767 (.fin (-(2 ^ 1073)))).1 = 0 := by decide
+
+/-- **Saturation thresholds**, `RINT_MAX` odd (`32767`, `2147483647`): a finite sample saturates iff
+    `x ≥ RINT_MAX + 1/2` or `x < -RINT_MAX - 3/2`. -/
+theorem clip_iff (mx x : Int) (hm : mx % 2 = 1) :
+    (convSample mx (.fin x)).2 = true ↔
+      ((2 * mx + 1) * (unit : Int) ≤ 2 * x ∨ 2 * x < (2 * (-mx - 1) - 1) * (unit : Int)) :=
+  clip_iff_threshold mx x hm
+
+/-- 32767.5 saturates, -32768.5 does not (it is a tie and goes to the even -32768). -/
+example : (convSample 32767 (.fin (65535 * 2 ^ 1073))).2 = true ∧ (convSample 32767 (.fin (-65537 * 2 ^ 1073))) = (-32768, false) := by
+  decide
+
+/-! ## the kernels of `rint-clip.h` against the per-sample reference -/
+
+/-- **`LSX_RINT_CLIP`: the 16-way unrolled loop with its invalid-flag fix-up, followed by the tail, is the per-sample
+    reference** — for every list of operands (every length: `numBlocks` iterations and the tail), every seed, every
+    counter value, dithered or not: outputs are the reference conversion of the operands, the flag is clear again, the
+    counter has advanced by exactly the number of saturated samples.  Hypothesis: invalid flag clear on entry. -/
+theorem fast_path_eq_reference (c : Cfg) (h : 0 ≤ c.mx) (xs : List Val) (seed : Seed) (n : Nat) :
+    lsxRintClip c xs seed ⟨false, n⟩ =
+      (refOut c.mx (kernelOperands c xs seed).1, (kernelOperands c xs seed).2,
+        ⟨false, n + refClips c.mx (kernelOperands c xs seed).1⟩) := lsxRintClip_clear c h xs seed n
+
+/-- a 17-sample call (one unrolled block, which saturates at index 3 and is redone, and a one-sample tail that saturates). -/
+example : lsxRintClip ⟨32767, false⟩
+    ((List.replicate 3 (.fin 0) ++ [.inf false] ++ List.replicate 12 (.fin (7 * 2 ^ 1073))) ++ [.nan]) 5 ⟨false, 0⟩ =
+    (List.replicate 3 0 ++ [32767] ++ List.replicate 12 4 ++ [-32768], 5, ⟨false, 2⟩) := by decide
+
+/-- The strided kernel `LSX_RINT_CLIP_2`, any number of channels. -/
+theorem strided_eq_reference (c : Cfg) (h : 0 ≤ c.mx) (chans : List (List Val)) (seed : Seed) (n : Nat) :
+    lsxRintClip2 c chans seed ⟨false, n⟩ =
+      ((kernelOperands2 c chans seed).1.map (refOut c.mx), (kernelOperands2 c chans seed).2,
+        ⟨false, n + ((kernelOperands2 c chans seed).1.map (refClips c.mx)).sum⟩) := lsxRintClip2_clear c h chans seed n
+
+/-- **The hypothesis is needed**: entered with a stale invalid flag, the code saturates (and counts) the first tail sample
+    although it is `0.0`.  (Assumption of the property, listed in the check's evidence; the model follows the code.) -/
+theorem stale_flag_breaks_it :
+    lsxRintClip ⟨32767, false⟩ [.fin 0] 0 ⟨true, 0⟩ = ([-32768], 0, ⟨false, 1⟩) := by decide
+
+/-- **`_soxr_interleave` / `_soxr_interleave_f` to int32, or to int16 without dither**: for every engine precision,
+    channel count (the mono kernel or the strided one), length and input, the memory written is the per-sample reference
+    in interleaved order; `clips` is exactly the number of saturated samples; the seed is untouched. -/
+theorem interleave_int_spec (eng : Fmt) (t : DType) (ht : t = .i32 ∨ t = .i16) (chans : List (List Nat)) (n : Nat)
+    (hlen : ∀ c ∈ chans, c.length = n) (dith : Bool) (hd : dith = false ∨ t = .i32) (seed : Seed) :
+    let r := interleave eng t chans n dith seed false
+    r.out = (specInt eng t chans n).1 ∧ r.clips = (specInt eng t chans n).2 ∧ r.seed = seed ∧ r.flag = false :=
+  interleave_int_nodither eng t ht chans n hlen dith hd seed
+
+/-- two channels of two samples, float32 engine, int16 out: `1.0, 40000.0 | -1.0, NaN`. -/
+example : (interleave f32 .i16 [[0x3f800000, 0x471c4000], [0xbf800000, 0x7fc00000]] 2 false 0 false).out =
+    [1, 0xffff, 0x7fff, 0x8000] ∧
+    (interleave f32 .i16 [[0x3f800000, 0x471c4000], [0xbf800000, 0x7fc00000]] 2 false 0 false).clips = 2 := by decide
+
+/-- element `i * ch + j` of the interleaved output is sample `i` of channel `j`. -/
+theorem interleaved_order {α : Type} [Inhabited α] (chans : List (List α)) (n : Nat)
+    (hlen : ∀ c ∈ chans, c.length = n) (i j : Nat) (hi : i < n) (hj : j < chans.length) :
+    (interleaveLists chans n)[i * chans.length + j]? = (chans[j]?).bind (·[i]?) :=
+  interleaveLists_get chans n hlen i j hi hj
+
+/-! ## the clip counter -/
+
+/-- **The clip counter grows by exactly the number of saturated samples** (undithered integer output, all channels). -/
+theorem clip_count_exact (eng : Fmt) (t : DType) (ht : t = .i32 ∨ t = .i16) (chans : List (List Nat)) (n : Nat)
+    (hlen : ∀ c ∈ chans, c.length = n) (seed : Seed) :
+    (interleave eng t chans n false seed false).clips =
+      (chans.map fun c => c.countP fun b => (convSample (rintMax t) (eng.decode b)).2).sum :=
+  (interleave_int_nodither eng t ht chans n hlen false (Or.inl rfl) seed).2.1
+
+/-- With dither the same holds of the dithered operands (the samples plus their dither), every length and seed. -/
+theorem clip_count_exact_dither (c : Cfg) (h : 0 ≤ c.mx) (xs : List Val) (seed : Seed) (n : Nat) :
+    (lsxRintClip c xs seed ⟨false, n⟩).2.2.clips =
+      n + (kernelOperands c xs seed).1.countP fun d => (convSample c.mx d).2 := by
+  rw [lsxRintClip_clear c h]; rfl
+
+/-! ## integer full scale is ±1.0; scaling by the full-scale ratio is exact -/
+
+/-- `io_spec.scale` as the real `soxr_create` computes it at unit gain (read back by `harness/conv/gen.c` for all 16
+    datatype pairs) is the power of two `2^(fullScaleLog2 o − fullScaleLog2 i)` of the model. -/
+theorem scale_table_pow2 :
+    ∀ e ∈ Gen.scaleTable, e.2.2.1 = 1 ∧ e.2.2.2 = scaleLog2 (DType.ofCode e.1) (DType.ofCode e.2.1) := by decide
+
+/-- The scaling stage is exact whenever the scaled value is representable in the engine's sample format. -/
+theorem scale_pow2_exact (eng : Fmt) (hw : Fmt.WF eng) (j : Int) (hj : j ≠ 0) (b : Nat) (x y : Int)
+    (hdec : eng.decode b = .fin x) (hy : scaleUnits x j = y) (hrep : Fmt.Rep eng y.natAbs) :
+    eng.decode (scaleSample eng j b) = .fin y := scaleSample_exact eng hw j hj b x y hdec hy hrep
+
+example : f32.decode (scaleSample f32 15 0x3f000000) = .fin (16384 * unit) := by decide +kernel
+
+/-- int16 `v` comes out as exactly `v / 32768` (as float32 through the float32 engine, as float64 through the float64
+    engine): `y · 2^15 = v · 1.0` by `full_scale_meaning`. -/
+theorem full_scale_i16 (b : Nat) :
+    f32.decode (passSample f32 .i16 .f32 b).1 = .fin (toSigned 16 b * ((2 ^ (U - 15) : Nat) : Int)) ∧
+    f64.decode (passSample f64 .i16 .f64 b).1 = .fin (toSigned 16 b * ((2 ^ (U - 15) : Nat) : Int)) ∧
+    toSigned 16 b * ((2 ^ (U - 15) : Nat) : Int) * ((2 ^ 15 : Nat) : Int) = toSigned 16 b * (unit : Int) :=
+  ⟨full_scale_i16_f32 b, full_scale_i16_f64 b, full_scale_meaning _ 15 (by decide)⟩
+
+/-- int32 `v` comes out as exactly `v / 2^31` (float64). -/
+theorem full_scale_i32 (b : Nat) :
+    f64.decode (passSample f64 .i32 .f64 b).1 = .fin (toSigned 32 b * ((2 ^ (U - 31) : Nat) : Int)) ∧
+    toSigned 32 b * ((2 ^ (U - 31) : Nat) : Int) * ((2 ^ 31 : Nat) : Int) = toSigned 32 b * (unit : Int) :=
+  ⟨full_scale_i32_f64 b, full_scale_meaning _ 31 (by decide)⟩
+
+/-- the most negative int16 / int32 is the pattern of `-1.0f` / `-1.0`; `+16384` is `0.5f`. -/
+theorem minus_full_scale_is_minus_one :
+    (passSample f32 .i16 .f32 0x8000).1 = 0xbf800000 ∧ (passSample f64 .i32 .f64 0x80000000).1 = 0xbff0000000000000 ∧
+    (passSample f32 .i16 .f32 0x4000).1 = 0x3f000000 := by decide +kernel
+
+/-! ## exact wherever the target can represent the value -/
+
+/-- int16 → float32 → int16: two passes through the library give back every `short` bit for bit, nothing saturates. -/
+theorem int16_float32_roundtrip (b : Nat) :
+    passSample f32 .f32 .i16 (passSample f32 .i16 .f32 b).1 = (b % 2 ^ 16, false) := roundtrip_i16_f32 b
+
+/-- int32 → float64 → int32 likewise (float64 engine). -/
+theorem int32_float64_roundtrip (b : Nat) :
+    passSample f64 .f64 .i32 (passSample f64 .i32 .f64 b).1 = (b % 2 ^ 32, false) := roundtrip_i32_f64 b
+
+/-- int16 → int32 is `v · 65536` exactly, either engine. -/
+theorem int16_to_int32_exact (b : Nat) :
+    passSample f32 .i16 .i32 b = (ofSigned 32 (toSigned 16 b * 65536), false) ∧
+    passSample f64 .i16 .i32 b = (ofSigned 32 (toSigned 16 b * 65536), false) := ⟨pass_i16_i32_f32 b, pass_i16_i32_f64 b⟩
+
+/-- float32 → float64 keeps the value of every pattern that is not a NaN; float32 → float64 engine → float32 returns it. -/
+theorem float32_widen_exact (b : Nat) (hn : f32.decode b ≠ .nan) :
+    f64.decode (Fmt.cvt f32 f64 b) = f32.decode b ∧ f32.decode (passSample f64 .f32 .f32 b).1 = f32.decode b :=
+  ⟨float_widen_exact b hn, pass_f32_f32_f64 b hn⟩
+
+example : f32.decode 0x3f800001 ≠ .nan := by decide
+
+/-- float32 → int16 (gain `2^15`) is the reference conversion of the exact product `x · 32768`: scaled exactly, rounded to
+    nearest even, saturated, counted (`Rep`: the product does not overflow float32, i.e. `|x| < 2^113`). -/
+theorem float_to_int16_is_reference (b : Nat) (x : Int) (hx : f32.decode b = .fin x)
+    (hrep : Fmt.Rep f32 (x.natAbs * 2 ^ 15)) :
+    passSample f32 .f32 .i16 b =
+      (ofSigned 16 (convSample 32767 (.fin (x * 32768))).1, (convSample 32767 (.fin (x * 32768))).2) :=
+  pass_f32_i16_f32 b x hx hrep
+
+/-- `1.0f` saturates to 32767 and is counted; `-1.0f` is exactly -32768 and is not. -/
+example : passSample f32 .f32 .i16 0x3f800000 = (0x7fff, true) ∧ passSample f32 .f32 .i16 0xbf800000 = (0x8000, false) := by
+  decide +kernel
+
+/-! ## pass-through at equal rates and unit gain -/
+
+/-- **Equal rates, unit gain, same type in and out: bit-exact pass-through**, nothing counted as clipped — int16 through
+    either engine, int32 through the float64 engine, float32 through either engine (value-exact through float64, bit-exact
+    through float32), float64 through the float64 engine.  (int32 through the 24-bit float32 engine and float64 through it
+    are not exact and not claimed.) -/
+theorem passthrough_exact (b : Nat) :
+    passSample f32 .i16 .i16 b = (b % 2 ^ 16, false) ∧ passSample f64 .i16 .i16 b = (b % 2 ^ 16, false) ∧
+    passSample f64 .i32 .i32 b = (b % 2 ^ 32, false) ∧
+    passSample f32 .f32 .f32 b = (b % 2 ^ 32, false) ∧ passSample f64 .f64 .f64 b = (b % 2 ^ 64, false) ∧
+    (f32.decode b ≠ .nan → f32.decode (passSample f64 .f32 .f32 b).1 = f32.decode b) :=
+  ⟨pass_i16_i16_f32 b, pass_i16_i16_f64 b, pass_i32_i32_f64 b, pass_f32_f32_f32 b, pass_f64_f64_f64 b, pass_f32_f32_f64 b⟩
+
+/-! ## dither -/
+
+/-- The dither added to a sample is `k/32` LSB with `|k| ≤ 31`: strictly less than one LSB, for every state of the
+    generator. -/
+theorem dither_amount_bound (r : Ran) : -31 ≤ (ditherNext r).1 ∧ (ditherNext r).1 ≤ 31 := ditherNext_bound r
+
+/-- **Total error of a dithered, unsaturated int16 sample is below 1.5 LSB** (dither `< 1`, rounding `≤ 1/2`, and the one
+    `double` rounding of `src + k/32` is accounted for): `2·|out − x| < 3` in LSB. -/
+theorem dither_bound (x k : Int) (hk1 : -31 ≤ k) (hk2 : k ≤ 31)
+    (hc : (convSample 32767 (addDither (.fin x) k)).2 = false) :
+    2 * ((convSample 32767 (addDither (.fin x) k)).1 * (unit : Int) - x).natAbs < 3 * unit :=
+  dither_error 32767 (by decide) (by decide) x k hk1 hk2 hc
+
+example : (convSample 32767 (addDither (.fin (5 * 2 ^ 1073)) 31)).2 = false := by decide +kernel
+
+/-- The dithered kernel as a whole (flag clear on entry; every length, input, seed): there are per-sample numerators
+    `|k_i| ≤ 31` with output `i` = reference conversion of `src[i] + k_i/32`, and the counter is exact. -/
+theorem dithered_kernel_spec (c : Cfg) (h : 0 ≤ c.mx) (xs : List Val) (seed : Seed) (n : Nat) :
+    ∃ ds : List Val, Rel₂ (DithRel c.dith) xs ds ∧
+      lsxRintClip c xs seed ⟨false, n⟩ = (refOut c.mx ds, (kernelOperands c xs seed).2, ⟨false, n + refClips c.mx ds⟩) :=
+  lsxRintClip_dither c h xs seed n
+
+/-- The seed advances by two LCG steps per unrolled block plus two for the tail, also for an empty call. -/
+theorem dither_seed_advance (c : Cfg) (hd : c.dith = true) (h : 0 ≤ c.mx) (xs : List Val) (seed : Seed) (n : Nat) :
+    (lsxRintClip c xs seed ⟨false, n⟩).2.1 = iter (fun s => lcg (lcg s)) (numBlocks xs.length + 1) seed := by
+  rw [lsxRintClip_clear c h]; exact kernelOperands_seed c hd xs seed
+
+/-- The LCG is `seed · 1664525 + 1013904223 (mod 2^64)` with the constants read from `rint-clip.h`. -/
+theorem lcg_is_mod_2_64 (s : Seed) : (lcg s).toNat = (Gen.lcgA * s.toNat + Gen.lcgC) % 2 ^ 64 := lcg_toNat s
+
+/-- **Without dither (`SOXR_NO_DITHER`, or int32 output) the output does not depend on the seed** and leaves it alone. -/
+theorem no_dither_deterministic (eng : Fmt) (t : DType) (ht : t = .i32 ∨ t = .i16) (chans : List (List Nat)) (n : Nat)
+    (hlen : ∀ c ∈ chans, c.length = n) (s₁ s₂ : Seed) :
+    (interleave eng t chans n false s₁ false).out = (interleave eng t chans n false s₂ false).out ∧
+    (interleave eng t chans n false s₁ false).clips = (interleave eng t chans n false s₂ false).clips ∧
+    (interleave eng t chans n false s₁ false).seed = s₁ := by
+  have a := interleave_int_nodither eng t ht chans n hlen false (Or.inl rfl) s₁
+  have b := interleave_int_nodither eng t ht chans n hlen false (Or.inl rfl) s₂
+  exact ⟨a.1.trans b.1.symm, a.2.1.trans b.2.1.symm, a.2.2.1⟩
+
+/-! ## constants generated from /repo on every run -/
+
+/-- What `harness/conv/gen.c` read from the working tree agrees with the model: the unroll factor (observed on the real
+    kernel and counted in the macro), the seed width, the saturation results for ±Inf / NaN of all four kernels families,
+    `RINT_MAX`, and the libsamplerate helpers' scale. -/
+theorem generated_constants :
+    Gen.unroll = 16 ∧ Gen.do16Count = 16 ∧ Gen.seedBits = 64 ∧ Gen.ditherShift0 = 3 ∧
+    Gen.rintMax16 = rintMax .i16 ∧ Gen.rintMax32 = rintMax .i32 ∧
+    (∀ e ∈ Gen.limits,
+      let mx := if e.2.1 = 32 then rintMax .i32 else rintMax .i16
+      (convSample mx (.inf false)).1 = e.2.2.1 ∧ (convSample mx (.inf true)).1 = e.2.2.2.1 ∧
+      (convSample mx .nan).1 = e.2.2.2.2) ∧
+    lsrToFloat 15 1 = Gen.lsrShortOne ∧ lsrToFloat 31 1 = Gen.lsrIntOne := by decide +kernel
+
+end Soxr.Conv.C11
